@@ -15,6 +15,7 @@ fn main() {
     std::panic::set_hook(Box::new(|_| {
         ops::PANICS_RAISED.fetch_add(1, std::sync::atomic::Ordering::SeqCst);
     }));
+    ops::init_nested_reference();
     let args: Vec<String> = std::env::args().collect();
     let stdout = std::io::stdout();
     let mut out = std::io::BufWriter::new(stdout.lock());
